@@ -21,6 +21,7 @@ import Driver.C13
 import Driver.C16
 import Driver.C14
 import Driver.C15
+import Driver.C03
 open Lean
 
 namespace Driver
@@ -47,6 +48,7 @@ def handle (j : Json) : Json :=
   | .ok "C16" => C16.handle j
   | .ok "C14" => C14.handle j
   | .ok "C15" => C15.handle j
+  | .ok "C03" => C03.handle j
   | _ => badOp
 
 partial def loop (hin hout : IO.FS.Stream) : IO Unit := do
